@@ -4,7 +4,6 @@ package main
 
 import (
 	"context"
-	"encoding/json"
 	"time"
 
 	"github.com/tokenized/spynode/internal/state"
@@ -16,20 +15,7 @@ func runMemPool(c *Case) ([]Obs, any) {
 	ctx := context.Background()
 	u := NewTxUniverse()
 	mp := state.NewMemPool()
-	// cfg.txs = [[txid, [outpoints...]], ...] : bodies are fixed per txid and built up front
-	if raw, ok := c.Cfg["txs"]; ok {
-		var decl [][]json.RawMessage
-		if err := json.Unmarshal(raw, &decl); err != nil {
-			panic(harnessErr("cfg.txs: " + err.Error()))
-		}
-		for _, d := range decl {
-			var t int64
-			var body []int64
-			json.Unmarshal(d[0], &t)
-			json.Unmarshal(d[1], &body)
-			u.Tx(t, body, nil, nil)
-		}
-	}
+	u.Declare(c)
 	var result []Obs
 	for _, raw := range c.Ops {
 		op := decodeOp(raw)
